@@ -119,7 +119,9 @@ def i1_next_fold_agree(prog):
                 if p.ended == 'return' or any(w['i'] > v_['i'] for w in views):
                     unfolded = unfolded or 'Iter::fold views an archetype without folding its rows'
         if p.ended == 'return':
-            whole = any(of_field(e['vals'][0], ai) for e in folds)
+            # a fold of the archetype iterator as a whole (through adaptors that drop nothing but what their closure rejects)
+            whole = any(of_field(e['vals'][0], ai) or (of_field(pathsem.iter_chain(S(e['vals'][0]))[0], ai) and
+                                                     set(pathsem.iter_chain(S(e['vals'][0]))[1]) <= {'filter', 'map', 'filter_map', 'inspect', 'by_ref', 'into_iter', 'iter', 'iter_mut', 'fuse', 'flat_map'}) for e in folds)
             done_ = [v for a_, v in p.conds if isinstance(a_, tuple) and a_[0] in ('nonempty', 'exhausted', 'next') and of_field(pathsem.iter_chain(a_[1])[0], ai)]
             ended = whole or any((a_[0] == 'exhausted' and v is True) or (a_[0] == 'next' and v == 0) for a_, v in p.conds if isinstance(a_, tuple) and a_[0] in ('exhausted', 'next') and of_field(pathsem.iter_chain(a_[1])[0], ai)) or \
                 (done_ and done_[-1] is False)
